@@ -191,10 +191,7 @@ def run(p, report, tier):
     gt = FuncTree(g.node)
     rank = [n for n in ast.walk(g.node) if isinstance(n, ast.Call) and c01.callname(n) == "rankdata"]
     force = [n for n in ast.walk(g.node) if isinstance(n, ast.Assign) and isinstance(n.targets[0], ast.Subscript)
-             and "nanmax" in ast.unparse(n.value) or (isinstance(n, ast.Assign) and isinstance(n.value, ast.Name)
-             and any(isinstance(d, ast.Assign) and isinstance(d.targets[0], ast.Name) and d.targets[0].id == n.value.id
-                     and "nanmax" in ast.unparse(d.value) for d in ast.walk(g.node))
-             and isinstance(n.targets[0], ast.Subscript))]
+             and _derives_from_call(g.node, n.value, "nanmax")]
     ok_force = bool(rank) and bool(force) and all(_before(gt, f_, gt.stmt_of(rank[0])) for f_ in force)
     ok_rank = bool(rank) and any(k.arg == "method" and isinstance(k.value, ast.Constant) and k.value.value == "ordinal"
                                  for k in rank[0].keywords) and any(k.arg == "axis" and ast.unparse(k.value) == "1" for k in rank[0].keywords)
@@ -416,6 +413,36 @@ def check_subsampling_translation(p, report, sw, ent, tree, rule):
                f"{sw.file}:{sw.node.lineno}", okf)
 
 
+def _derives_from_call(fnode, expr, cname, depth=0):
+    """expr contains a call of `cname`, directly or through single-assignment locals"""
+    if any(isinstance(n, ast.Call) and c01.callname(n) == cname for n in ast.walk(expr)):
+        return True
+    if depth > 4:
+        return False
+    for nm in names_in(expr):
+        defs = [d for d in ast.walk(fnode) if isinstance(d, ast.Assign) and len(d.targets) == 1
+                and isinstance(d.targets[0], ast.Name) and d.targets[0].id == nm]
+        if len(defs) == 1 and _derives_from_call(fnode, defs[0].value, cname, depth + 1):
+            return True
+    return False
+
+
+def _emptiness_guard(fnode, test):
+    """`if len(x) > 0:` / `if n:` with n = len(x): skipping the body when there is
+    nothing to process"""
+    t = test
+    if isinstance(t, ast.Compare) and len(t.ops) == 1 and isinstance(t.ops[0], (ast.Gt, ast.NotEq)) \
+            and isinstance(t.comparators[0], ast.Constant) and t.comparators[0].value == 0:
+        t = t.left
+    if isinstance(t, ast.Call) and c01.callname(t) == "len":
+        return True
+    if isinstance(t, ast.Name):
+        defs = [d for d in ast.walk(fnode) if isinstance(d, ast.Assign) and len(d.targets) == 1
+                and isinstance(d.targets[0], ast.Name) and d.targets[0].id == t.id]
+        return len(defs) == 1 and isinstance(defs[0].value, ast.Call) and c01.callname(defs[0].value) == "len"
+    return False
+
+
 def _before(tree, a, b):
     sa = a if isinstance(a, ast.stmt) else tree.stmt_of(a)
     # `a` (possibly inside a loop) precedes b: the statement or its enclosing
@@ -424,5 +451,8 @@ def _before(tree, a, b):
         return True
     for (s, owner, field, idx) in tree.ancestors(sa):
         if isinstance(owner, (ast.For, ast.While)) and dominates(tree, owner, b):
+            return True
+        if isinstance(owner, ast.If) and field == "body" and not owner.orelse and dominates(tree, owner, b) \
+                and _emptiness_guard(tree.fnode, owner.test):
             return True
     return False
